@@ -637,6 +637,8 @@ def _read_append_rep(filename, pattern, b2b, cfg_separator, im, single):
             start = data_starts[cnfg]
             stop = start + data_starts[1]
             chunk = content[start:stop]
+            if len(chunk) < data_starts[1]:
+                raise Exception("Incomplete run at the end of " + filename)
             idl, data = _read_chunk(chunk, gauge_line, cfg_separator, start_read, T, corr_line, b2b, pattern, im, single)
             rep_idl.append(idl)
             rep_data.append(data)
